@@ -30,9 +30,11 @@ def cases(ctx):
         return hex_of(spec.commb_frame(rng, df if df is not None else rng.choice([20, 21]), fields))
 
     for pos in range(8):
+        bases = [[rng.choice(CODES) for _ in range(8)] for _ in range(nr)]
         for code in range(64):
-            for _ in range(nr):
-                codes = [rng.choice(CODES) for _ in range(8)]
+            for base in bases:
+                # the same base string for the whole sweep: consecutive calls differ in one character only
+                codes = list(base)
                 codes[pos] = code
                 legal = code in LEGAL
                 e = "".join(LEGAL.get(c, "#") for c in codes)
